@@ -143,3 +143,19 @@ check(
     "generated adversarial classes x Hypothesis histories, differential vs. plain class + never-invoked counters",
     "DESIGN.md section 4 C17",
 )
+check(
+    "C19",
+    "exploration",
+    "Every shape <= 5/6 nodes x 5 class schemes (Node, mixed NodeMixin classes, trees with SymlinkNodes whose targets are in the same tree, in a second tree or other links, slotted and dict-carrying LightNodeMixin classes) x every entry node x every applicable pickle protocol and copy.deepcopy, plus Hypothesis trees <= 30 nodes: the copy must be isomorphic (shape, order, classes, attribute values), the result must occupy the entry's position, share no object with the original, satisfy the C01 invariant, keep link targets pointing at the corresponding copied node, and mutations of either side must not show on the other.",
+    "Protocols 0/1 only for classes without __slots__; trees stay far below pickle/deepcopy recursion limits.",
+    "bounded-exhaustive shapes x class schemes x entry x protocol + Hypothesis vs. isomorphism/position/disjointness/consistency/independence oracle",
+    "DESIGN.md section 4 C19",
+)
+check(
+    "C20",
+    "exploration",
+    "Histories over a growing universe of plain nodes and links (SymlinkNode with constructor keywords, a SymlinkNodeMixin subclass; links to links, same or other tree) with structural calls and attribute writes on links and targets: after every step the whole node x attribute-name table read through getattr is compared with an attribute-store model, every node's navigation attributes with the C04 definitions at its own position, and the whole forest with the closed-form structural model.",
+    "Attribute names exclude the node API; after a refused structural call only exception class and link invariant are judged (rollback is C03). Defect D9 repaired (fix: 1363094).",
+    "Hypothesis stateful histories + systematic link-chain scripts vs. attribute-store model and structural model",
+    "DESIGN.md section 4 C20",
+)
